@@ -119,6 +119,45 @@ def rust_debug_str(t):
     return out + '"'
 
 
+def drop_required(rng, sch, Tn, doc):
+    """the document without one of its required elements: (bytes, "Type.Element"), or None when it has none"""
+    tree = C13.parse_tree(doc)
+    if not tree:
+        return None
+    roots = [n for n in tree if n[0] == "E"]
+    if len(roots) != 1:
+        return None
+    cands = []
+    def walk(kids, T, depth):
+        e = sch["types"].get(T)
+        if e is None or e["ser"]["kind"] == "union" or depth > 8:
+            return
+        for f, k in C13.kinds(sch, T):
+            here = [n for n in kids if n[0] == "E" and n[1] == f["elem"]]
+            if k in ("KReq", "KFlatReq", "KWrapReq") and here:
+                cands.append((kids, f["elem"], T))
+            if "named" in f["ty"]:
+                for n in here:
+                    if k in ("KWrap", "KWrapReq"):
+                        for m in n[2]:
+                            if m[0] == "E":
+                                walk(m[2], f["ty"]["named"], depth + 1)
+                    else:
+                        walk(n[2], f["ty"]["named"], depth + 1)
+    walk(roots[0][2], Tn, 0)
+    if not cands:
+        return None
+    kids, elem, T = rng.choice(cands)
+    kids[:] = [n for n in kids if not (n[0] == "E" and n[1] == elem)]
+    def esc(t):
+        return t.replace(b"&", b"&amp;").replace(b"<", b"&lt;").replace(b">", b"&gt;")
+    def show(n, top=False):
+        if n[0] == "T":
+            return esc(n[1])
+        return b"<" + n[1].encode() + (b' xmlns="http://s3.amazonaws.com/doc/2006-03-01/"' if top else b"") + b">" + b"".join(show(x) for x in n[2]) + b"</" + n[1].encode() + b">"
+    return b'<?xml version="1.0" encoding="UTF-8"?>' + show(roots[0], True), "%s.%s" % (T, elem)
+
+
 def leaf_strings(term):
     """the string leaves of a C13 model value term, in document order"""
     return [bytes(int(x) for x in m.split(";") if x).decode("utf8", "replace") for m in re.findall(r"LVs \[([0-9;]*)\]", term)]
@@ -393,6 +432,16 @@ def run(ctx):
             c3 = dict(c); c3["headers"] = list(c["headers"]) + [("content-length", str(rng.choice([len(c["body"]) + 1, len(c["body"]) - 1, len(c["body"]) + 100, 0])))]
             c3["fault"] = ("content-length-mismatch", docs[i][0], ""); c3["stream"] = True
             extra.append(c3)
+    # a payload document from which one required member (at any depth; a required list with all its entries, a wrapped list with its
+    # wrapper) has been taken out is refused with a client error - never handed on with the member defaulted
+    nmiss = 0
+    for i, c in list(enumerate(built)):
+        if i in docs and c["fault"] is None and (nmiss < 40 or not ctx.quick):
+            d2 = drop_required(rng, T.sch, docs[i][1], docs[i][2])
+            if d2 is not None:
+                c4 = dict(c); c4["body"] = d2[0]; c4["sent"] = dict(c["sent"]); c4["sent"].pop(docs[i][0], None)
+                c4["fault"] = ("missing-payload-member", docs[i][0], d2[1]); c4["headers"] = list(c["headers"])
+                extra.append(c4); nmiss += 1
     built += extra
     cases = [finish_case(c, stream=c.get("stream", False) or (c["fault"] is None and len(c["body"]) > 4096 and rng.below(2) == 0)) for c in built]
     res = vlib.run_impl("svc", cases)
@@ -518,9 +567,82 @@ def run(ctx):
             if ndiff <= 2:
                 ctx.violation(dict(stage="correspondence:decode", kind="model and implementation read the same message differently", model=mo[:400], received=ev[0]["input"][:600], **show), has_input=False)
     ctx.count("operations", len(ops))
+    try:
+        run_proxy_leg(ctx, T, built, cases, res)
+    except vlib.HarnessError as e:
+        ctx.violation(dict(stage="harness", kind="the proxy leg could not be run", error=str(e)[:2000]), has_input=False)
     ctx.sample(dict(operation=built[0]["info"]["op"], sent={k: str(v[1])[:40] for k, v in built[0]["sent"].items()}, received=(res[0].get("events") or [{}])[-1].get("input", "")[:300]))
 
 
 def strip_some(v):
     m = re.fullmatch(r"Some\((.*)\)", v, re.S)
     return m.group(1) if m else v
+
+# ------------------------------------------------------------ the proxy leg: client -> adapter -> s3s_aws::Proxy (AWS SDK) -> second adapter -> backend
+# members the SDK may add, drop or compute on its own on the second hop (not part of what the client sent)
+PROXY_SDK_OWNED = {"checksum_algorithm", "checksum_mode", "content_length", "content_md5", "body", "checksum_crc32", "checksum_crc32c", "checksum_sha1",
+                   "checksum_sha256", "checksum_crc64nvme", "sdk_checksum_algorithm"}
+
+
+def run_proxy_leg(ctx, T, built, cases, res):
+    """the inputs with every optional member present, sent once more through the proxy: the second backend must receive every member the
+    first adapter produced with exactly the same value (Debug text, timestamps with their full precision)"""
+    first = {}
+    for i, c in enumerate(built):
+        if c["fault"] is None and c["info"]["op"] not in first and res[i].get("events"):
+            first[c["info"]["op"]] = i
+    idx = sorted(first.values())
+    pcases = []
+    for i in idx:
+        case = json.loads(json.dumps(cases[i]))
+        b = case["request"].get("body")
+        if b and b.get("kind") == "bytes":
+            # sub-millisecond instants in payload documents (what a client with microsecond clocks sends)
+            d = re.sub(rb"(T\d\d:\d\d:\d\d)\.000Z", rb"\1.123456Z", bytes.fromhex(b["data"]))
+            b["data"] = d.hex()
+            case["request"]["headers"] = [[n, (str(len(d)).encode().hex() if n == "content-length" else v)] for n, v in case["request"]["headers"]]
+        pcases.append(case)
+    direct = vlib.run_impl("svc", pcases)
+    proxied = vlib.run_impl("proxy", pcases)
+    for i, case, d, pr in zip(idx, pcases, direct, proxied):
+        op = built[i]["info"]["op"]
+        ctx.cov["evaluations"] += 1
+        dev = [e for e in d.get("events", []) if e.get("ev") == "backend"]
+        pev = [e for e in pr.get("events", []) if e.get("ev") == "backend"]
+        show = dict(operation=op, leg="proxy", request=case["request"] if len(json.dumps(case["request"])) < 4000 else "(large)")
+        if "panic" in pr:
+            ctx.violation(dict(stage="proxy", kind="the proxy leg panicked", panic=pr["panic"][:300], **show)); continue
+        if not dev:
+            ctx.count("proxy.direct-leg-refused"); continue
+        if not pev:
+            # the SDK may refuse to build a request the first adapter accepted (client-side validation): counted, not judged
+            ctx.count("proxy.not-forwarded.%s.%s" % (pr.get("response", {}).get("status"), op))
+            continue
+        if pev[0]["op"] != dev[0]["op"]:
+            ctx.violation(dict(stage="proxy", kind="the second adapter dispatched %s for an input of %s" % (pev[0]["op"], dev[0]["op"]), **show)); continue
+        g1, g2 = parse_struct(dev[0]["input"]), parse_struct(pev[0]["input"])
+        if g1 is None or g2 is None:
+            ctx.count("proxy.unparsed"); continue
+        def canon(v):
+            # a map prints in hash order: compare its entries as a set
+            v2 = strip_some(v) if v is not None else v
+            if v2 is not None and v2.startswith("{") and v2.endswith("}"):
+                return "{" + ", ".join(sorted(split_top(v2[1:-1]))) + "}"
+            return v
+        why = None
+        for m, v in g1.items():
+            if m in PROXY_SDK_OWNED or v in ("None", "[]"):
+                continue
+            if canon(g2.get(m)) != canon(v):
+                why = "member %s: the first adapter produced %s, the second backend received %s" % (m, v[:200], (g2.get(m) or "nothing")[:200])
+                break
+        if why is None:
+            for m, v in g2.items():
+                if m not in g1 and m not in PROXY_SDK_OWNED and v not in ("None", "[]"):
+                    why = "member %s was not sent but arrived at the second backend as %s" % (m, v[:120]); break
+        if why:
+            ctx.violation(dict(stage="proxy", kind="the proxied input differs from the input the client encoded: " + why, **show))
+        else:
+            ctx.cov["traces_validated_against_impl"] += 1
+            ctx.count("proxy.same-input")
+            ctx.nontrivial(("proxy", op, len(g1)))
